@@ -79,6 +79,13 @@ fn comb_pending_ok(w: &World, k: u16) -> Result<(), String> {
     if c.fam == Fam::Co {
         // a concurrent-stream operation may legitimately wait only for a child that never completes
         // (directly, or because the consumer is saturated by such children)
+        // C14: once a work future has resolved to Err the fallible operations short-circuit; they may not
+        // keep waiting for anything (not even for a future that never completes)
+        if c.home == 14 {
+            if let Some(f) = c.children.iter().copied().find(|&ch| w.children[ch as usize].finished && w.children[ch as usize].is_err) {
+                return Err(format!("fallible concurrent-stream operation #{} is still Pending with no wake-up outstanding although work future {} has resolved to Err", k, f));
+            }
+        }
         let stuck = c.children.iter().any(|&ch| {
             let r = &w.children[ch as usize];
             !r.finished && r.spec.never
@@ -335,10 +342,31 @@ pub fn run(subj: Box<dyn Subject>) -> EndKind {
         }
     }
 
+    // -------------------------------------------------------------------- probe after the final result
+    // C03: "once a combinator has produced its final result it has stopped polling its children". A caller
+    // that polls again violates the Future contract, so the combinator may panic or answer anything - but a
+    // child must not be polled. (Values it might hand out are dropped here; the ownership monitor still runs.)
+    if end_kind == EndKind::Final && with(|w| w.cfg.probe) && !subj.as_ref().unwrap().reusable() {
+        let gen = with(|w| {
+            w.stack.push(0);
+            w.ev(Ev::Note(0xF1FA));
+            w.combs[0].gen + 1
+        });
+        let wk = make_waker(0, gen, None);
+        let mut cx = Context::from_waker(&wk);
+        let s = subj.as_mut().unwrap();
+        let r = catch_unwind(AssertUnwindSafe(|| s.poll(&mut cx)));
+        with(|w| {
+            w.stack.clear();
+            w.in_fire = NONE;
+        });
+        drop(r);
+    }
+
     // -------------------------------------------------------------------- quiescence
     if end_kind == EndKind::Quiescent {
         with(|w| {
-            if w.violations.is_empty() && w.combs[0].last == Last::Pending {
+            if w.combs[0].last == Last::Pending {
                 if let Err(m) = comb_pending_ok(w, 0) {
                     let nevers = w.children.iter().any(|r| r.spec.never);
                     w.violate(1, || m.clone());
@@ -405,7 +433,7 @@ pub fn run(subj: Box<dyn Subject>) -> EndKind {
         w.wakers.clear();
         with_drops(|d| {
             for b in d.bad.drain(..) {
-                if w.violations.len() < 8 {
+                if w.violations.iter().filter(|v| v.prop == 2).count() < 3 {
                     w.violations.push(Violation { prop: 2, msg: b });
                 }
             }
@@ -419,13 +447,13 @@ pub fn run(subj: Box<dyn Subject>) -> EndKind {
                         Fam::Zip if k0.last == Last::Final && !d.val_returned[i] => 9,
                         _ => 0,
                     };
-                    if fam_prop != 0 && w.violations.len() < 8 {
+                    if fam_prop != 0 && w.violations.iter().filter(|v| v.prop == fam_prop).count() < 2 {
                         w.violations.push(Violation {
                             prop: fam_prop,
                             msg: format!("value {} (produced by child {}, seq {}) was not returned and was dropped {} times instead of exactly once", i, o.0, o.1, c),
                         });
                     }
-                    if w.violations.len() < 8 {
+                    if w.violations.iter().filter(|v| v.prop == 2).count() < 3 {
                         w.violations.push(Violation {
                             prop: 2,
                             msg: format!("value {} (child {}, seq {}) was dropped {} times by the end of the execution (returned to caller: {})", i, o.0, o.1, c, d.val_returned[i]),
